@@ -467,6 +467,47 @@ theorem every_route_f64 (env : Env) (defs : List RouteDef) (t : Table)
               (0 < tg.weight → some i ∈ ring) ∧ (tg.weight = 0 → nFixed ts ≠ 0 → some i ∉ ring) :=
   every_route_as_coded Arith.f64 f64_rounds_nonneg f64_rounds_zero env defs t h
 
+/-- **Sentence 2–4 of the property for the float64 code as coded, end to end:** for every command script, every
+route of the float64 table, every tie order of the sort and every cursor position whose window does not cross
+the uint64 wrap, a full round-robin cycle over the (non-empty) ring sends target `i` exactly `nᵢ` requests,
+where `nᵢ = 1` without fixed weights and otherwise `|nᵢ − 10⁴·wᵢ| < 1 + 10⁻⁶` (for `wᵢ ≤ 2`; `wᵢ` the float64
+weight), `nᵢ ≥ 1` for a positive weight and `nᵢ = 0` for weight zero. -/
+theorem rr_share_f64 (env : Env) (defs : List RouteDef) (t : Table)
+    (h : newTableA Arith.f64 env defs = .ok t) :
+    ∀ kv ∈ t, ∀ r ∈ kv.2, ∃ ts, r.targets = weighA Arith.f64 ts ∧
+      ∀ pl : List (Int × Nat), pl.Perm (entries (r.targets.map (fun t => slotCountA Arith.f64 t.weight))) →
+        ∃ ring, ringAsCoded Arith.f64 ts pl = .ok ring ∧
+          ∀ total, 0 < ring.length → total + ring.length ≤ uint64Size →
+            ∃ out, rrRun ring ring.length total = .ok out ∧
+              ∀ i tg, r.targets[i]? = some tg →
+                (nFixed ts = 0 → out.count (some i) = 1) ∧
+                (nFixed ts ≠ 0 → tg.weight ≤ 2 →
+                  |((out.count (some i) : Nat) : Rat) - 10000 * tg.weight| < 1 + 1 / 1000000) ∧
+                (0 < tg.weight → 0 < out.count (some i)) ∧
+                (tg.weight = 0 → nFixed ts ≠ 0 → out.count (some i) = 0) := by
+  intro kv hkv r hr
+  obtain ⟨_, hnn, ts, hts, hring⟩ := every_route_f64 env defs t h kv hkv r hr
+  refine ⟨ts, hts, fun pl hperm => ?_⟩
+  obtain ⟨ring, h1, _, h3⟩ := hring pl hperm
+  refine ⟨ring, h1, fun total hl hw => ?_⟩
+  obtain ⟨out, ho, hc⟩ := rr_cycle_exact ring hl total hw
+  refine ⟨out, ho, fun i tg hi => ?_⟩
+  obtain ⟨c1, c2, c3⟩ := h3 i tg hi
+  have hwn : 0 ≤ tg.weight := hnn tg (List.mem_of_getElem? hi)
+  refine ⟨fun h0 => by rw [hc, c1]; simp [h0], fun hn h2 => ?_, fun hp => ?_, fun hz hn => ?_⟩
+  · rw [hc, c1]
+    simp only [hn, if_false]
+    have h0 := slotCountA_nonneg Arith.f64 f64_rounds_nonneg _ hwn
+    have : (((slotCountA Arith.f64 tg.weight).toNat : Nat) : Rat) = ((slotCountA Arith.f64 tg.weight : Int) : Rat) := by
+      have : (((slotCountA Arith.f64 tg.weight).toNat : Nat) : Int) = slotCountA Arith.f64 tg.weight := Int.toNat_of_nonneg h0
+      exact_mod_cast congrArg (fun z : Int => (z : Rat)) this
+    rw [this]
+    exact slot_error_f64 _ hwn h2
+  · rw [hc]; exact List.count_pos_iff.mpr (c2 hp)
+  · rw [hc]
+    have := c3 hz hn
+    exact List.count_eq_zero_of_not_mem this
+
 /-! ## the random picker under a uniform source -/
 
 theorem count_eq_countP_range (l : Ring) (a : Option Nat) :
